@@ -1,12 +1,12 @@
 """C20, IEEE part — the portable IEEE-754 serialisers (float32.c / double64.c) and the byte-order helpers (sfendian.h).
 
 What runs here (called from vlib/props/c20.py):
- 1. the witness of the known finding KF-C20-ieee-flush is replayed (the writers flush |x| < 1e-30 to zero);
+ 1. regressions: the witness of the repaired defect KF-C20-ieee-flush (writers flushed |x| < 1e-30 to zero) is replayed by
+    ctx.run_regressions(); the class is no longer waived anywhere;
  2. kernel streams: the eight routines float32_{be,le}_{read,write}, double64_{be,le}_{read,write} are called directly
     (`sfh ieee <routine>`; the *_be_* routines are not reachable with arbitrary data through the public API on a
     little-endian host) on a boundary dictionary and on seeded patterns stratified by exponent field, and compared
-      (a) with the native representation          -> the property predicate (normal values only, flush class waived
-                                                      while it shows the known signature: all-zero bytes),
+      (a) with the native representation          -> the property predicate (every finite normal value),
       (b) with the lib-shaped model `sfmodel ieee` -> the correspondence (every pattern: subnormals, +-0, Inf, NaN too);
  3. API streams: RAW files, SF_FORMAT_FLOAT / SF_FORMAT_DOUBLE, both file byte orders, with SFC_TEST_IEEE_FLOAT_REPLACE
     switched on before the first transfer: sf_write_float/double -> file bytes, crafted file bytes -> sf_read_float/double,
@@ -14,15 +14,20 @@ What runs here (called from vlib/props/c20.py):
     C20 statement) and with the model (`replaceWriteF32` &c.: f2bf_array / bf2f_array + endswap_*_array);
  4. byte-order helpers: ENDSWAP_16 and psf_put_be16 / psf_get_be16 exhaustively, the 24/32/64-bit ones on a dictionary and
     seeded values; involution and put/get round trip are evaluated on the implementation's own answers.
+ 5. the *_be_* routines through the public API: AIFF PEAK values (float32_be_write on close, float32_be_read on open, read back
+    with SFC_GET_MAX_ALL_CHANNELS; 1024 channels per file) and the MAT4 big-endian sample-rate field (double64_be_write /
+    double64_be_read).
+C01 (run_c01_replace, called from vlib/props/c01.py): write -> close -> re-open -> read through the portable path for both types and
+both file byte orders; bit-exact for every finite value outside the known class KF-C01-ieee-tiny (subnormals and -0 come back as +0).
 A value where the implementation differs from the native representation on a normal number outside the known class is a
 VIOLATION whose replay holds that one value; a disagreement with the model that falsifies nothing is reported with
 no-failing-input-found.
 """
 import array, concurrent.futures, os, struct, subprocess, time
 
-FLUSH32 = 0x0DA24260            # smallest binary32 magnitude with (double) x >= 1e-30
-FLUSH64 = 0x39B4484BFEEBC2A0    # the double 1e-30 itself
-KF_ID = "KF-C20-ieee-flush"
+FLUSH32 = 0x0DA24260            # old rule (before the fix: commit): smallest binary32 magnitude with (double) x >= 1e-30
+FLUSH64 = 0x39B4484BFEEBC2A0    # the double 1e-30 itself; both stay in the dictionary as regression points
+KF_TINY = "KF-C01-ieee-tiny"
 
 FLOAT_ROUTINES = ["f32-be-read", "f32-le-read", "f32-be-write", "f32-le-write",
                   "f64-be-read", "f64-le-read", "f64-be-write", "f64-le-write"]
@@ -48,8 +53,14 @@ def is_normal(v, digits):
     return e != 0 and e != 0x7FF
 
 
-def in_flush_class(v, digits):
-    return (v & 0x7FFFFFFF) < FLUSH32 if digits == 8 else (v & 0x7FFFFFFFFFFFFFFF) < FLUSH64
+def is_finite(v, digits):
+    return ((v >> 23) & 0xFF) != 0xFF if digits == 8 else ((v >> 52) & 0x7FF) != 0x7FF
+
+
+def is_tiny(v, digits):
+    """KF.ieeeTiny: exponent field 0 and not +0 (subnormal or -0)"""
+    e = (v >> 23) & 0xFF if digits == 8 else (v >> 52) & 0x7FF
+    return e == 0 and v != 0
 
 
 def dictionary(digits):
@@ -126,8 +137,6 @@ def judge_line(rt, digits, in_line, out_line, stats):
     if exp == out_line:
         return []
     bad = []
-    zero = "0" * digits
-    is_write = rt.endswith("write")
     for k in range(0, len(in_line), digits):
         got = out_line[k:k + digits]
         want = exp[k:k + digits]
@@ -137,12 +146,6 @@ def judge_line(rt, digits, in_line, out_line, stats):
         v = value_of_item(rt, item, digits)
         if not is_normal(v, digits):
             stats["outside_statement"] += 1          # subnormal, zero, Inf, NaN: the statement says "finite normal value"
-            continue
-        if is_write and in_flush_class(v, digits):
-            if got == zero:
-                stats["known_flush"] += 1
-                continue
-            bad.append((item, got, want, "flush-class-other-signature"))
             continue
         bad.append((item, got, want, "normal"))
     return bad
@@ -205,29 +208,11 @@ def replay(ctx, path):
     ctx.report(path, no_input=True)
 
 
-# ------------------------------------------------------------------------------------------------ known finding
-def check_known(ctx):
-    """replays the witness; returns the entry while the defect still shows its signature, else None"""
-    kf = next((k for k in ctx.known if k.get("id") == KF_ID and k.get("status") == "known"), None)
-    if kf is None:
-        return None
-    path = os.path.join(os.path.dirname(os.path.dirname(os.path.abspath(__file__))), kf["witness"])
-    text = open(path).read()
-    head, script = text.split("--- script", 1)
-    lines, rc, err = ctx.script(script.lstrip("\n"))
-    ctx.count(1, "known-witness")
-    sig = [l[len("signature-last "):].strip() for l in head.split("\n") if l.startswith("signature-last ")]
-    if rc == 0 and lines and sig and sig[0] in lines[-1]:
-        ctx.known_finding(kf)
-        return kf
-    return None
-
-
 # ------------------------------------------------------------------------------------------------ the campaign
 def kernel_stream(ctx, rt, n_rand, seed):
     """-> dict(routine, n, bad=[...], diff=(item, impl, model) or None, stats)"""
     digits = width_of(rt)
-    stats = {"outside_statement": 0, "known_flush": 0}
+    stats = {"outside_statement": 0}
     vals = dictionary(digits)
     if rt.endswith("le-read"):
         dline = swap_items(hexline(vals, digits), digits)
@@ -269,7 +254,7 @@ def api_stream(ctx, ty, file_be, direction, values_hex, n):
     digits = 8 if ty == "f32" else 16
     fmt = "%x" % ((0x20000000 if file_be else 0x10000000) | 0x040000 | (6 if ty == "f32" else 7))
     name = "api-%s-%s-%s" % (direction, ty, "be" if file_be else "le")
-    stats = {"outside_statement": 0, "known_flush": 0}
+    stats = {"outside_statement": 0}
     res = {"routine": name, "n": n, "bad": [], "diff": None, "stats": stats}
     if direction == "w":
         outs = []
@@ -307,11 +292,6 @@ def api_stream(ctx, ty, file_be, direction, values_hex, n):
             v = int(inputs[k:k + digits], 16)
             if not is_normal(v, digits):
                 stats["outside_statement"] += 1
-            elif direction == "w" and in_flush_class(v, digits):
-                if g == zero:
-                    stats["known_flush"] += 1
-                else:
-                    res["bad"].append((inputs[k:k + digits], g, w, "flush-class-other-signature"))
             else:
                 res["bad"].append((inputs[k:k + digits], g, w, "normal"))
     if model != rep:
@@ -405,16 +385,246 @@ def helper_streams(ctx):
     return res
 
 
+# ------------------------------------------------------------------------------------------------ *_be_* through the API
+AIFF_CH = 1024
+
+
+def _finite32(v):
+    return v if ((v >> 23) & 0xFF) != 0xFF else v & ~(1 << 23)
+
+
+def _hdr_result(name, n):
+    return {"routine": name, "n": n, "bad": [], "diff": None, "stats": {"outside_statement": 0}, "header": True}
+
+
+def aiff_peak_write_stream(ctx, vals):
+    """float32_be_write through aiff_write_header: one frame of 1024 channels per file, PEAK value k = be_write (fabs (v_k))"""
+    name = "api-aiff-peak-w"
+    vals = [_finite32(v) for v in vals]
+    vals = vals[:len(vals) // AIFF_CH * AIFF_CH]
+    res = _hdr_result(name, len(vals))
+    scripts = []
+    for k in range(0, len(vals), AIFF_CH):
+        scripts.append(("f%d" % (k // AIFF_CH), "open h0 s0 w fmt=20006 ch=%d sr=8000\nw h0 f32 f 1 %s\nclose h0\ndump s0\n"
+                        % (AIFF_CH, hexline(vals[k:k + AIFF_CH], 8))))
+    out = ctx.batch(scripts, workers=4, clean=True)
+    got = []
+    for nm, _ in scripts:
+        lines = out.get(nm, [])
+        hx = lines[-1].split("hex=")[1].strip() if lines and "hex=" in lines[-1] else ""
+        if len(hx) < 2 * (72 + 8 * AIFF_CH) or hx[112:120] != "5045414b":
+            res["crash"] = "%s: file %s has no PEAK chunk where aiff_write_header puts it; transcript %r" % (name, nm, lines[-2:])
+            return res
+        got += [hx[2 * (72 + 8 * j):2 * (72 + 8 * j) + 8] for j in range(AIFF_CH)]
+    mags = [v & 0x7FFFFFFF for v in vals]
+    model = items_of("".join(model_lines(ctx, "f32-be-write", [hexline(mags[k:k + 4096], 8) for k in range(0, len(mags), 4096)])), 8)
+    for v, m, g, mo in zip(vals, mags, got, model):
+        want = "%08x" % m
+        if g != want:
+            if is_normal(m, 8):
+                res["bad"].append(("%08x" % v, g, want, "normal", mo))
+            else:
+                res["stats"]["outside_statement"] += 1
+        if g != mo and res["diff"] is None:
+            res["diff"] = ("%08x" % v, g, mo)
+    res["replay_fn"] = lambda item, got_, want, model_, note: (
+        "# C20 (float32_be_write through the AIFF PEAK chunk): %s\n# sample value %s: PEAK value bytes %s, native representation of |value| %s, model %s\n"
+        "# the PEAK chunk starts at byte 56 of the file, its first value at byte 72\n--- script\nopen h0 s0 w fmt=20006 ch=1 sr=8000\nw h0 f32 f 1 %s\nclose h0\ndump s0\n"
+        % (note, item, got_, want, model_, item))
+    return res
+
+
+def aiff_file_with_peaks(patterns):
+    ch = len(patterns)
+    comm = struct.pack(">hIh", ch, 1, 32) + bytes.fromhex("400bfa00000000000000") + b"FL32" + b"\0\0"
+    peak = struct.pack(">II", 1, 1000000000) + b"".join(struct.pack(">II", p, 0) for p in patterns)
+    ssnd = struct.pack(">II", 0, 0) + b"\0" * (4 * ch)
+    body = (b"AIFC" + b"FVER" + struct.pack(">II", 4, 0xA2805140) + b"COMM" + struct.pack(">I", len(comm)) + comm
+            + b"PEAK" + struct.pack(">I", len(peak)) + peak + b"SSND" + struct.pack(">I", len(ssnd)) + ssnd)
+    return b"FORM" + struct.pack(">I", len(body)) + body
+
+
+def aiff_peak_read_stream(ctx, vals):
+    """float32_be_read through aiff_read_header: crafted PEAK values, read back as doubles with SFC_GET_MAX_ALL_CHANNELS"""
+    name = "api-aiff-peak-r"
+    vals = vals[:len(vals) // AIFF_CH * AIFF_CH]
+    res = _hdr_result(name, len(vals))
+    scripts = []
+    for k in range(0, len(vals), AIFF_CH):
+        scripts.append(("f%d" % (k // AIFF_CH), "store s0 %s\nopen h0 s0 r fmt=0 ch=0 sr=0\ncmd h0 1045 %d zero\n"
+                        % (aiff_file_with_peaks(vals[k:k + AIFF_CH]).hex(), 8 * AIFF_CH)))
+    out = ctx.batch(scripts, workers=4, clean=True)
+    got = []
+    for nm, _ in scripts:
+        lines = out.get(nm, [])
+        hx = lines[-1].split("data=")[1].strip() if lines and "data=" in lines[-1] and "data=null" not in lines[-1] else ""
+        if len(hx) != 16 * AIFF_CH:
+            res["crash"] = "%s: file %s: SFC_GET_MAX_ALL_CHANNELS did not answer; transcript %r" % (name, nm, [l[:200] for l in lines[-2:]])
+            return res
+        got += items_of(swap_items(hx, 16), 16)
+    model = items_of("".join(model_lines(ctx, "peak-be-read", [hexline(vals[k:k + 4096], 8) for k in range(0, len(vals), 4096)])), 16)
+    for v, g, mo in zip(vals, got, model):
+        if is_normal(v, 8):
+            want = struct.pack(">d", struct.unpack(">f", struct.pack(">I", v))[0]).hex()
+            if g != want:
+                res["bad"].append(("%08x" % v, g, want, "normal", mo))
+        elif g != mo:
+            res["stats"]["outside_statement"] += 1
+        if g != mo and res["diff"] is None:
+            res["diff"] = ("%08x" % v, g, mo)
+
+    def rp(item, got_, want, model_, note):
+        f = aiff_file_with_peaks([int(item, 16)])
+        return ("# C20 (float32_be_read through the AIFF PEAK chunk): %s\n# PEAK value bytes %s: SFC_GET_MAX_ALL_CHANNELS reports the double %s, native widening gives %s, model %s\n"
+                "expect-last data=%s\n--- script\nstore s0 %s\nopen h0 s0 r fmt=0 ch=0 sr=0\ncmd h0 1045 8 zero\n"
+                % (note, item, got_, want, model_, swap_items(want, 16), f.hex()))
+    res["replay_fn"] = rp
+    return res
+
+
+MAT4_HEAD = bytes.fromhex("000003e80000000100000001000000000000000b73616d706c6572617465" "00")
+MAT4_TAIL = bytes.fromhex("0000040600000001000000010000000000000009" "776176656461746100" "0001")
+
+
+def mat4_write_stream(ctx, rates):
+    """double64_be_write through mat4_write_header: the sample rate is stored as a big-endian double"""
+    name = "api-mat4-rate-w"
+    res = _hdr_result(name, len(rates))
+    script = "".join("store s0\nopen h0 s0 w fmt=200c0002 ch=1 sr=%d\nclose h0\ndump s0\n" % r for r in rates)
+    lines, rc, err = ctx.script(script)
+    dumps = [l.split("hex=")[1].strip() for l in lines if l.startswith("len=") and "hex=" in l]
+    if rc != 0 or len(dumps) != len(rates):
+        res["crash"] = "%s: harness exit %d, %d of %d headers\n%s" % (name, rc, len(dumps), len(rates), err[-1500:])
+        return res
+    pats = [struct.pack(">d", float(r)).hex() for r in rates]
+    model = items_of("".join(model_lines(ctx, "f64-be-write", ["".join(pats[k:k + 2048]) for k in range(0, len(pats), 2048)])), 16)
+    for r, want, d, mo in zip(rates, pats, dumps, model):
+        g = d[62:78]
+        if g != want:
+            res["bad"].append((str(r), g, want, "normal", mo))
+        if g != mo and res["diff"] is None:
+            res["diff"] = (str(r), g, mo)
+    res["replay_fn"] = lambda item, got_, want, model_, note: (
+        "# C20 (double64_be_write through the MAT4 header): %s\n# sample rate %s: bytes 31..38 of the header are %s, the native double is %s, model %s\n"
+        "--- script\nopen h0 s0 w fmt=200c0002 ch=1 sr=%s\nclose h0\ndump s0\n" % (note, item, got_, want, model_, item))
+    return res
+
+
+def mat4_read_stream(ctx, pats):
+    """double64_be_read through mat4_read_header: samplerate = psf_lrint (value)"""
+    name = "api-mat4-rate-r"
+    res = _hdr_result(name, len(pats))
+    script = "".join("store s0 %s\nopen h0 s0 r fmt=0 ch=0 sr=0\nclose h0\n" % (MAT4_HEAD + bytes.fromhex("%016x" % p) + MAT4_TAIL).hex() for p in pats)
+    lines, rc, err = ctx.script(script)
+    opens = [l for l in lines if l.startswith("open=")]
+    if rc != 0 or len(opens) != len(pats):
+        res["crash"] = "%s: harness exit %d, %d of %d opens\n%s" % (name, rc, len(opens), len(pats), err[-1500:])
+        return res
+    model = items_of("".join(model_lines(ctx, "mat4-be-read", [hexline(pats[k:k + 2048], 16) for k in range(0, len(pats), 2048)])), 8)
+    for p, l, mo in zip(pats, opens, model):
+        g = None
+        for t in l.split():
+            if t.startswith("sr="):
+                g = int(t[3:])
+        want = round(struct.unpack(">d", struct.pack(">Q", p))[0])      # round-half-even, as cvtsd2si does
+        mi = int(mo, 16)
+        if g != want:
+            res["bad"].append(("%016x" % p, str(g), str(want), "normal", str(mi)))
+        if g != mi and res["diff"] is None:
+            res["diff"] = ("%016x" % p, str(g), str(mi))
+
+    def rp(item, got_, want, model_, note):
+        f = MAT4_HEAD + bytes.fromhex(item) + MAT4_TAIL
+        return ("# C20 (double64_be_read through the MAT4 header): %s\n# sample-rate field %s: the library reports %s Hz, lrint of the native double is %s, model %s\n"
+                "expect-last sr=%s \n--- script\nstore s0 %s\nopen h0 s0 r fmt=0 ch=0 sr=0\n" % (note, item, got_, want, model_, want, f.hex()))
+    res["replay_fn"] = rp
+    return res
+
+
+def header_streams(ctx):
+    rng = ctx.rng
+    quick = ctx.tier == "quick"
+    n32 = (1 << 16) if quick else (1 << 20)
+    d32 = dictionary(8)
+    v32 = d32 + [(rng.getrandbits(1) << 31) | ((k % 255) << 23) | rng.getrandbits(23) for k in range(n32 - len(d32) % AIFF_CH)]
+    r32 = d32 + [(rng.getrandbits(1) << 31) | ((k % 256) << 23) | rng.getrandbits(23) for k in range(n32 - len(d32) % AIFF_CH)]
+    nr = 2048 if quick else 32768
+    rates = [1, 2, 3, 7, 8000, 44100, 48000, 65535, 65536, 65537, (1 << 24) - 1, 1 << 24, (1 << 24) + 1, (1 << 30) - 1, 1 << 30,
+             (1 << 31) - 1, (1 << 31) - 2, 0x55555555, 0x7FFFFFF0, 123456789]
+    rates += [rng.randrange(1, 1 << rng.randrange(1, 32)) for _ in range(nr)]
+    pats = [struct.unpack(">Q", struct.pack(">d", x))[0] for x in (1.0, 1.5, 2.5, 3.5, 0.5 + 8000, 44100.49999, 2147483646.5, 2147483647.0, 1.0000000000000002, 16777216.5)]
+    pats += [((1023 + (k % 31)) << 52) | rng.getrandbits(52) for k in range(nr)]
+    pats += [((1023 + (k % 31)) << 52) | (rng.getrandbits(k % 31 + 1) << (52 - (k % 31) - 1)) for k in range(nr // 4)]      # exact halves and integers
+    pats = [p for p in pats if 1 <= round(struct.unpack(">d", struct.pack(">Q", p))[0]) < (1 << 31)]
+    return [aiff_peak_write_stream(ctx, v32), aiff_peak_read_stream(ctx, r32), mat4_write_stream(ctx, rates), mat4_read_stream(ctx, pats)]
+
+
+# ------------------------------------------------------------------------------------------------ C01 through the portable path
+def c01_script(fmt, ty, hexvals, n):
+    return ("open h0 s0 w fmt=%s ch=1 sr=8000\ncmd h0 6001 1 null\nw h0 %s i %d %s\nclose h0\n"
+            "open h1 s0 r fmt=%s ch=1 sr=8000\ncmd h1 6001 1 null\nr h1 %s i %d\n" % (fmt, ty, n, hexvals, fmt, ty, n))
+
+
+def run_c01_replace(ctx):
+    """C01 for RAW float/double files written and read with the portable serialisers (SFC_TEST_IEEE_FLOAT_REPLACE)."""
+    kf = next((k for k in ctx.known if k.get("id") == KF_TINY and k.get("status") == "known"), None)
+    live = False
+    if kf is not None:
+        path = os.path.join(os.path.dirname(os.path.dirname(os.path.abspath(__file__))), kf["witness"])
+        head, script = open(path).read().split("--- script", 1)
+        lines, rc, err = ctx.script(script.lstrip("\n"))
+        sig = [l[len("signature-last "):].strip() for l in head.split("\n") if l.startswith("signature-last ")]
+        ctx.count(1, "ieee-tiny-witness")
+        if rc == 0 and lines and sig and sig[0] in lines[-1]:
+            live = True
+            ctx.known_finding(kf)
+    rng = ctx.rng
+    n_rand = 16384 if ctx.tier == "quick" else 1 << 20
+    tiny_seen = 0
+    for ty, digits in (("f32", 8), ("f64", 16)):
+        mb, eb = (23, 8) if digits == 8 else (52, 11)
+        vals = [v for v in dictionary(digits) if is_finite(v, digits)]
+        vals += [(rng.getrandbits(1) << (mb + eb)) | ((k % ((1 << eb) - 1)) << mb) | rng.getrandbits(mb) for k in range(n_rand)]
+        for file_be in (False, True):
+            fmt = "%x" % ((0x20000000 if file_be else 0x10000000) | 0x040000 | (6 if ty == "f32" else 7))
+            name = "c01-replace-%s-%s" % (ty, "be" if file_be else "le")
+            lines, rc, err = ctx.script(c01_script(fmt, ty, hexline(vals, digits), len(vals)))
+            rl = [l for l in lines if l.startswith("ret=") and "data=" in l and "data=null" not in l]
+            data = rl[-1].split("data=")[1].strip() if rl else ""
+            ctx.count(len(vals), tag=name)
+            ctx.coverage["traces_validated_against_impl"] += 1
+            if rc != 0 or len(data) != digits * len(vals):
+                ctx.violation(name + "-crash", "# C01 (portable IEEE path): the write/read script did not complete (exit %d, %d of %d items)\n%s\n"
+                              % (rc, len(data) // digits, len(vals), err[-2000:]))
+                continue
+            bad = None
+            for k, v in enumerate(vals):
+                g = data[k * digits:(k + 1) * digits]
+                if int(g, 16) == v:
+                    continue
+                if is_tiny(v, digits) and int(g, 16) == 0 and live:
+                    tiny_seen += 1
+                    continue
+                bad = (v, g)
+                break
+            if bad:
+                v, g = bad
+                one = "%0*x" % (digits, v)
+                ctx.violation(name, "# C01 (portable IEEE path, SFC_TEST_IEEE_FLOAT_REPLACE on): the finite value %s is read back as %s after write, close, re-open%s\n"
+                              "expect-last data=%s\n--- script\n%s" % (one, g, "" if not is_tiny(v, digits) else " (class %s, but not its signature or its witness no longer fails)" % KF_TINY,
+                                                                    one, c01_script(fmt, ty, one, 1)))
+    ctx.notes["ieee_c01"] = {"values_in_class_ieeeTiny_seen": tiny_seen, "patterns_per_stream": n_rand}
+
+
 def run_ieee(ctx):
     t0 = time.time()
     quick = ctx.tier == "quick"
-    kf = check_known(ctx)
-    n_full = (1 << 20) if quick else (1 << 24)
-    n_small = (1 << 18) if quick else (1 << 22)
+    ctx.run_regressions()
+    n_full = (1 << 20) if quick else (1 << 22)
+    n_small = (1 << 18) if quick else (1 << 20)
     seed = ctx.seed * 7919 + 17
     found_input = False
     broken = []          # correspondence streams that stopped checking without a falsifying input
-    known_flush = 0
     outside = 0
 
     # value patterns for the API streams come from the same stratified generator (values = inputs of the be-write stream)
@@ -443,6 +653,7 @@ def run_ieee(ctx):
 
     with concurrent.futures.ThreadPoolExecutor(max_workers=4) as ex:
         results = list(ex.map(do, jobs))
+    results += header_streams(ctx)
 
     for r in results:
         name = r["routine"]
@@ -452,23 +663,19 @@ def run_ieee(ctx):
             continue
         ctx.count(r["n"], tag="ieee-" + name)
         ctx.coverage["traces_validated_against_impl"] += 1
-        known_flush += r["stats"]["known_flush"]
         outside += r["stats"]["outside_statement"]
         is_api = name.startswith("api-")
         model_of = {}
         if r["diff"]:
             model_of[r["diff"][0]] = r["diff"][2]
-        if r["stats"]["known_flush"] and kf is None:
-            # the class only counts as known while the witness still fails with its signature
-            r["bad"].append(("(flush class)", "zero bytes", "native bits", "known-class-without-witness"))
         if r["bad"]:
             found_input = True
             item, got, want, kind = r["bad"][0][:4]
             if len(r["bad"][0]) > 4:
                 model_of[item] = r["bad"][0][4]
             note = ("a finite normal value is not serialised to its native bit pattern (%d such values in this stream, class: %s)" % (len(r["bad"]), kind))
-            if kind == "known-class-without-witness":
-                ctx.violation("ieee-%s-flush" % name, "# C20: values in the flush class are written as zero but the witness of %s no longer shows its signature\n" % KF_ID, no_input=True)
+            if "replay_fn" in r:
+                ctx.violation("ieee-%s" % name, r["replay_fn"](item, got, want, model_of.get(item, "?"), note))
             elif is_api:
                 ctx.violation("ieee-%s" % name, api_replay_text(r, item, got, want, model_of.get(item, "(not the first differing value of the model comparison)"), note))
             else:
@@ -502,7 +709,7 @@ def run_ieee(ctx):
     for (name, diff, r) in broken:
         item, got, model = diff
         text = ("# C20 (IEEE serialisers): correspondence stream %s stopped checking: input %s, implementation %s, model %s\n"
-                "# the value is outside 'finite normal' (or inside the known flush class), so the property statement is not falsified by it;\n"
+                "# the value is outside 'finite normal', so the property statement is not falsified by it;\n"
                 "# no normal value in the dictionary or in the %d seeded patterns of this stream differs from the native representation\n"
                 % (name, item, got, model, r["n"]))
         if name.startswith("api-"):
@@ -511,12 +718,13 @@ def run_ieee(ctx):
             text += "c20-ieee %s %s %s\n" % (name, item, model)
         ctx.violation("ieee-%s-model" % name, text, no_input=True)
 
-    ctx.notes["ieee"] = {"known_flush_class_values_seen": known_flush, "values_outside_statement_differing": outside,
+    ctx.notes["ieee"] = {"values_outside_statement_differing": outside,
                          "kernel_patterns_per_be_routine": n_full, "kernel_patterns_per_le_routine": n_small,
                          "api_patterns_le_file": n_full, "api_patterns_be_file": n_small,
                          "wall_s": round(time.time() - t0, 1)}
     ctx.coverage["rule"] += ("; IEEE serialisers: boundary dictionary (zeros, subnormals, smallest normals, the 1e-30 neighbours as exact patterns, one value per binade, "
                              "1+-ulp, all-ones mantissas, largest finite, Inf, NaNs; both signs) + seeded patterns with the exponent field swept through every value, "
                              "per routine, direct kernel calls and RAW float/double files of both byte orders with SFC_TEST_IEEE_FLOAT_REPLACE, replace path compared with "
-                             "the native path and with the model; ENDSWAP_16, psf_put_be16, psf_get_be16 exhaustive, wider helpers on a dictionary + seeded values")
+                             "the native path and with the model; float32_be_write / float32_be_read through AIFF PEAK chunks (1024 channels per file), double64_be_write / double64_be_read "
+                             "through the MAT4 big-endian sample-rate field; ENDSWAP_16, psf_put_be16, psf_get_be16 exhaustive, wider helpers on a dictionary + seeded values")
     return found_input
